@@ -104,6 +104,31 @@ def c18(rep, tier):
                 P3.ok(inst, 'flex runtime', where, nontrivial=False)
             else:
                 P3.unknown(inst, 'external function not on the allow or deny list (first call in %s)' % f['q'], where)
+    # errno is per-thread state that survives a call: a test of it is history dependent unless this function cleared it first
+    from .cfg import CFG
+    for f in facts.functions:
+        if f.get('body') is None or f['tmpl'] == 'pattern' or f['file'].endswith('lex.yy.c'):
+            continue
+        uses = [e for e in walk_all_exprs(f['body']) if e.get('k') == 'call' and (e.get('callee') or '') == '__errno_location']
+        if not uses:
+            continue
+        g = CFG(f)
+        writes, reads = [], []
+        assigned = set()
+        for e in walk_all_exprs(f['body']):
+            if e.get('k') == 'assign' and e.get('op') == '=':
+                for x in walk_expr(e['l']):
+                    if x.get('k') == 'call' and (x.get('callee') or '') == '__errno_location':
+                        assigned.add(x.get('sid'))
+                        writes.append(g.ev(e))
+        for u in uses:
+            if u.get('sid') not in assigned:
+                reads.append(g.ev(u))
+        for r in reads:
+            cleared = [w for w in writes if g.dominates(w, r)]
+            P3.check(bool(cleared), '%s: errno read' % f['q'], 'cleared in this function before it is tested',
+                     'errno is tested without having been cleared in this function: the outcome depends on an earlier failing conversion on the same thread '
+                     '(an earlier compile() in the process)', '%s:%d' % (os.path.relpath(f['file'], repo), (r.e.get('loc') or [0])[0]), witness={'history': 'compile a source with a literal beyond LONG_MAX, then any source with a number'})
     P4 = rep.rule('C18.P4', 'no container is keyed, ordered or hashed by a pointer value', floor=5)
     n_cont = 0
     seen = set()
